@@ -11,13 +11,21 @@ def okChar (c : Char) : Bool := c.isAlphanum || c == '_' || decide (c.toNat ≥ 
 
 def okName (s : String) : Bool := !s.toList.isEmpty && s.toList.all okChar
 
+/-- a float constant is a value a literal can denote: not a NaN (all NaN bit patterns print alike, so two of them
+    would be different constants with one snapshot; no GRL or JSON literal denotes a NaN) -/
+def isNaNBits (b : UInt64) : Bool := (b.toNat / 2^52) % 2048 == 2047 && b.toNat % 2^52 != 0
+
+def okConst : Const → Bool
+  | .float b => !isNaNBits b
+  | _ => true
+
 mutual
   def validE : Expr → Bool
     | .atom a => validA a
     | .paren _ e => validE e
     | .bin _ l r => validE l && validE r
   def validA : Atom → Bool
-    | .const _ => true
+    | .const c => okConst c
     | .var v => validV v
     | .call f args => okName f && validArgs args
     | .neg a => validA a
@@ -33,9 +41,16 @@ mutual
     | .cons e rest => validE e && validArgs rest
 end
 
-/-- snapshots determine nodes (proved as `snapInj` in `Proofs/SnapInj.lean`) -/
+/-- snapshots determine nodes: proved in `Proofs/SnapInj.lean` (`snapInj_of`) from `FloatPF`, the one fact about
+    `strconv`'s shortest float formatting the proof needs -/
 structure SnapInj : Prop where
   expr : ∀ e e', validE e = true → validE e' = true → snapE e = snapE e' → e = e'
   atom : ∀ a a', validA a = true → validA a' = true → snapA a = snapA a' → a = a'
+
+/-- the shortest formatting of floats is injective on non-NaN values (strconv's documented round-trip guarantee), stated
+    with the closing parenthesis that follows a float in a snapshot so that it also says no float text contains one -/
+def FloatPF : Prop :=
+  ∀ (b b' : UInt64) (r r' : List Char), isNaNBits b = false → isNaNBits b' = false →
+    fmtShortestChars b ++ (')' :: r) = fmtShortestChars b' ++ (')' :: r') → b = b' ∧ r = r'
 
 end Grule
